@@ -192,6 +192,7 @@ pub(crate) fn translate_block(
                 | capstone::x86_insn::X86_INS_JBE
                 | capstone::x86_insn::X86_INS_JCXZ
                 | capstone::x86_insn::X86_INS_JECXZ
+                | capstone::x86_insn::X86_INS_JRCXZ
                 | capstone::x86_insn::X86_INS_JE
                 | capstone::x86_insn::X86_INS_JG
                 | capstone::x86_insn::X86_INS_JGE
@@ -335,6 +336,7 @@ pub(crate) fn translate_block(
                 | capstone::x86_insn::X86_INS_JBE
                 | capstone::x86_insn::X86_INS_JCXZ
                 | capstone::x86_insn::X86_INS_JECXZ
+                | capstone::x86_insn::X86_INS_JRCXZ
                 | capstone::x86_insn::X86_INS_JE
                 | capstone::x86_insn::X86_INS_JG
                 | capstone::x86_insn::X86_INS_JGE
